@@ -11,24 +11,43 @@ VALIDATION_CASES = {'quick': 80, 'thorough': 300}
 TIME_BUDGET = {'quick': 900, 'thorough': 3300}
 OPTS = {'quick': {'hash_order': 'insertion', 'step_budget': 3000000}, 'thorough': {'hash_order': 'insertion', 'step_budget': 6000000}}
 # well-formed merge tables (token -> merge id); every entry is the concatenation of two earlier tokens / bytes
+def _t(*pairs):
+    return [(k if isinstance(k, bytes) else k.encode(), v) for k, v in pairs]
+
+
+# well-formed merge tables (token bytes -> merge id); every entry is the concatenation of two earlier tokens / bytes
 TABLES = {
-    'none': [],
-    'ab': [('ab', 0)],
-    'chain': [('ab', 0), ('abc', 1)],
-    'chain3': [('ab', 0), ('abc', 1), ('abcd', 2)],
-    'two': [('ab', 0), ('cd', 1)],
-    'two_join': [('ab', 0), ('cd', 1), ('abcd', 2)],
-    'compete': [('bc', 0), ('ab', 1)],
-    'compete2': [('ab', 0), ('bc', 1), ('abc', 2)],
-    'aa': [('aa', 0)],
-    'aaa': [('aa', 0), ('aaa', 1), ('aaaa', 2)],
-    'space': [(' a', 0), (' ab', 1)],
-    'umlaut': [('ä', 0), ('aä', 1)],
-    'rev': [('ba', 0), ('ab', 1), ('aba', 2)],
+    'none': _t(),
+    'ab': _t(('ab', 0)),
+    'chain': _t(('ab', 0), ('abc', 1)),
+    'chain3': _t(('ab', 0), ('abc', 1), ('abcd', 2)),
+    'two': _t(('ab', 0), ('cd', 1)),
+    'two_join': _t(('ab', 0), ('cd', 1), ('abcd', 2)),
+    'compete': _t(('bc', 0), ('ab', 1)),
+    'compete2': _t(('ab', 0), ('bc', 1), ('abc', 2)),
+    'aa': _t(('aa', 0)),
+    'aaa': _t(('aa', 0), ('aaa', 1), ('aaaa', 2)),
+    'space': _t((' a', 0), (' ab', 1)),
+    'umlaut': _t(('ä', 0), ('aä', 1)),
+    'rev': _t(('ba', 0), ('ab', 1), ('aba', 2)),
+    # a merged token that can be extended in both directions, the right extension having the lower id (and vice versa)
+    'both_r': _t(('bc', 0), ('bcd', 1), ('abc', 2)),
+    'both_l': _t(('bc', 0), ('abc', 1), ('bcd', 2)),
+    # a multi-level merge followed by a later merge to its right whose left part overlaps the absorbed token
+    'overlap5': _t(('ab', 0), ('abc', 1), ('de', 2), ('cde', 3)),
+    'overlap6': _t(('ab', 0), ('abc', 1), ('cabc', 2)),
+    'left_first': _t(('cd', 0), ('bcd', 1), ('abcd', 2)),
+    # merges that cut through 2-byte characters (ä = c3 a4, ö = c3 b6)
+    'split_mb': _t((b'\xc3\xa4', 0), (b'\xc3\xa4\xc3', 1), (b'\xb6\xc3', 2), (b'\xc3\xb6\xc3', 3)),
+}
+# per-table text alphabets (code points) and maximal text length for the long-word tables
+TABLE_ALPHA = {
+    'overlap5': ([0x61, 0x62, 0x63, 0x64, 0x65], 5), 'overlap6': ([0x61, 0x62, 0x63], 6), 'left_first': ([0x61, 0x62, 0x63, 0x64], 4),
+    'split_mb': ([0xE4, 0xF6, 0xFC, 0x61], 3), 'both_r': ([0x61, 0x62, 0x63, 0x64, 0x20], 4), 'both_l': ([0x61, 0x62, 0x63, 0x64, 0x20], 4),
 }
 BOUNDS = {
-    'quick': 'merge tables: the 13 well-formed tables of harnesses/c03.py (depth <= 3: chains, competing / overlapping merges, '
-             'merges across the leading space and inside a 2-byte character); texts: <= 4 symbolic characters over '
+    'quick': 'merge tables: the 19 well-formed tables of harnesses/c03.py (depth <= 4: chains, competing / overlapping merges, tokens '
+             'extendable in both directions, merges across the leading space and through 2-byte characters); texts: <= 4 symbolic characters over '
              '{a, b, c, d, space, tab, ä} plus one unconstrained 3-byte character position; ignore_special_tokens both',
     'thorough': 'texts of <= 5 symbolic characters',
 }
@@ -44,7 +63,8 @@ def shapes(tier):
     n = 4 if tier == 'quick' else 5
     out = []
     for tb in TABLES:
-        for ln in range(0, n + 1):
+        mx = TABLE_ALPHA[tb][1] if tb in TABLE_ALPHA else n
+        for ln in range(0, mx + 1):
             out.append({'table': tb, 'len': ln, 'special': 'default'})
     out.append({'table': 'chain', 'len': 3, 'special': 'bos_eos', 'wide': True})
     out.sort(key=lambda s: -s['len'])
@@ -54,7 +74,7 @@ def shapes(tier):
 def bpe_tok(ctx, shape, max_vocab=None):
     m = ctx.m
     table = TABLES[shape['table']]
-    mp = MapObj('HashMap', [[VecObj([Int(b, 'u8') for b in k.encode()]), Int(v, 'u32')] for k, v in table])
+    mp = MapObj('HashMap', [[VecObj([Int(b, 'u8') for b in k]), Int(v, 'u32')] for k, v in table])
     m.stubs['SerializeMsgPack::load'] = lambda c, a, ck: Ok(mp)
     conf = Struct('BPETokenizerConfig', [Opaque('PathBuf'), NONE() if max_vocab is None else Some(Int(max_vocab, 'usize')), False],
                   ['merge_file', 'max_vocab_size', 'use_graphemes'])
@@ -76,12 +96,13 @@ def sym_text(ctx, shape):
         if shape.get('wide') and i == 1:
             c = ctx.sym_char('t%d' % i, 3)
         else:
-            w = 1 + ctx.in_choice('w%d' % i, 2)        # width 1 or 2
+            alpha = TABLE_ALPHA[shape['table']][0] if shape['table'] in TABLE_ALPHA else ALPHA
+            has1 = any(a < 0x80 for a in alpha)
+            has2 = any(a >= 0x80 for a in alpha)
+            w = 1 + ctx.in_choice('w%d' % i, 2) if (has1 and has2) else (1 if has1 else 2)        # width 1 or 2
             c = ctx.sym_char('t%d' % i, w)
-            if w == 1:
-                ctx.assume(z3.Or(*[c.v == a for a in ALPHA if a < 0x80]))
-            else:
-                ctx.assume(c.v == 0xE4)
+            opts_ = [a for a in alpha if (a < 0x80) == (w == 1)]
+            ctx.assume(z3.Or(*[c.v == a for a in opts_]))
         chars.append(c)
     ctx.inputs['text'] = chars
     buf = StrBuf(chars, [ctx.char_width(c) for c in chars])
@@ -114,7 +135,7 @@ def reference_bpe(ctx, byte_list, table):
     m = ctx.m
     toks = [[b] for b in byte_list]           # each token = list of bytes
     ids = [b for b in byte_list]              # single byte: id = byte value (Int u8)
-    entries = [(list(k.encode()), v) for k, v in table]
+    entries = [(list(k), v) for k, v in table]
 
     def pair_id(x, y):
         cat = x + y
@@ -166,7 +187,7 @@ def run(ctx, shape, opts):
 def _nshape(shape, max_vocab=None):
     tokens, pad, prefix, suffix = SPECIALS[shape['special']]
     return {'kind': 'bpe', 'g': False, 'tokens': tokens, 'pad': pad, 'prefix': prefix, 'suffix': suffix,
-            'merges': [[list(k.encode()), v] for k, v in TABLES[shape['table']]], 'max_vocab_size': max_vocab}
+            'merges': [[list(k), v] for k, v in TABLES[shape['table']]], 'max_vocab_size': max_vocab}
 
 
 def native_outputs(native, shape, inputs):
@@ -180,7 +201,7 @@ def native_outputs(native, shape, inputs):
 def reference_bpe_py(bl, table):
     toks = [[b] for b in bl]
     ids = list(bl)
-    entries = {bytes(k.encode()): v for k, v in table}
+    entries = {bytes(k): v for k, v in table}
     while True:
         best = None
         for i in range(len(toks) - 1):
